@@ -91,6 +91,41 @@ fn control(pool: &rayon::ThreadPool, w: usize) -> bool {
     ok.load(SeqCst) == w
 }
 
+/// A plain system that drives a whole other dispatcher (sendable form, own pool, own world).
+struct DrivesAnother {
+    inner: shred::SendDispatcher<'static>,
+    world: Arc<shred::World>,
+    par_only: bool,
+}
+impl<'a> shred::System<'a> for DrivesAnother {
+    type SystemData = ();
+    fn run(&mut self, _: ()) {
+        if self.par_only {
+            self.inner.dispatch_par(&self.world)
+        } else {
+            self.inner.dispatch(&self.world)
+        }
+    }
+}
+
+/// Keeps every system it sees inside `run` until released (bounded).
+struct ParkAll {
+    release: std::sync::atomic::AtomicBool,
+    inside: AtomicUsize,
+}
+impl Driver for ParkAll {
+    fn gate(&self, _: &Ctx, _: u32, g: Gate) {
+        if g == Gate::PostRun {
+            self.inside.fetch_add(1, SeqCst);
+            wait_until(Instant::now() + Duration::from_secs(60), || self.release.load(SeqCst));
+            self.inside.fetch_sub(1, SeqCst);
+        }
+    }
+    fn name(&self) -> String {
+        "park-all".into()
+    }
+}
+
 /// Size of the pool a dispatcher builds for itself when none was supplied.
 fn default_threads() -> usize {
     std::env::var("RAYON_NUM_THREADS").ok().and_then(|v| v.parse::<usize>().ok()).filter(|n| *n > 0).unwrap_or_else(|| std::thread::available_parallelism().map(|n| n.get()).unwrap_or(1))
@@ -129,6 +164,12 @@ struct Scenario {
     foreign: Option<Pool>,
     /// the user-supplied pool is attached after all registrations
     pool_last: bool,
+    /// the dispatcher is dispatched from inside an ordinary system of *another* dispatcher, which
+    /// runs on its own pool of this (small) size
+    nested_in_system_of: Option<Pool>,
+    /// while the scenario runs, another dispatcher (other pool, other thread) is busy: this many
+    /// of its systems are inside run all the time
+    busy_neighbour: usize,
 }
 
 /// One complete scenario on a fresh dispatcher: warm-up history, then `reps` dispatches whose
@@ -141,6 +182,44 @@ fn run_scenario(p: &Scenario) -> (usize, usize) {
         let ctx = Ctx::new(plan.n_uids(), (ev + 16) * 2);
         let mut completed = 0usize;
         let mut gave_up = 0usize;
+        // a busy neighbour: another dispatcher, on another pool and another thread, whose systems
+        // stay inside run for the whole scenario
+        let park = Arc::new(ParkAll { release: std::sync::atomic::AtomicBool::new(false), inside: AtomicUsize::new(0) });
+        let neighbour = if p.busy_neighbour > 0 {
+            let n = p.busy_neighbour;
+            let park2 = park.clone();
+            let h = std::thread::spawn(move || {
+                let mut uid = 1u32;
+                let mut rng = Rng::new(0x5eed ^ n as u64);
+                let nplan = Plan { items: wide_level(&mut uid, n, &mut rng, false, 0) };
+                let nctx = Ctx::new(nplan.n_uids(), 64);
+                let npool = make_pool(n);
+                let mut nd = instantiate(&nplan, &nctx, Some(&npool)).build();
+                let nworld = full_world();
+                nctx.arm(park2);
+                nctx.set_mode(Mode::Run);
+                nd.dispatch(&nworld);
+                nctx.set_mode(Mode::Build);
+            });
+            if !wait_until(Instant::now() + Duration::from_secs(20), || park.inside.load(SeqCst) >= n) {
+                park.release.store(true, SeqCst);
+                let _ = h.join();
+                return (0, 0);
+            }
+            Some(h)
+        } else {
+            None
+        };
+        struct ReleaseOnDrop(Arc<ParkAll>, Option<std::thread::JoinHandle<()>>);
+        impl Drop for ReleaseOnDrop {
+            fn drop(&mut self) {
+                self.0.release.store(true, SeqCst);
+                if let Some(h) = self.1.take() {
+                    let _ = h.join();
+                }
+            }
+        }
+        let _release = ReleaseOnDrop(park.clone(), neighbour);
         let run_reps = |d: &mut dyn FnMut(), ctx: &Arc<Ctx>, completed: &mut usize, gave_up: &mut usize| {
             for _ in 0..reps {
                 let o = Arc::new(Overlap::new(pts.clone(), WAIT));
@@ -189,6 +268,20 @@ fn run_scenario(p: &Scenario) -> (usize, usize) {
                     d.dispatch(&world);
                 }
                 ctx.set_mode(Mode::Build);
+                if let Some(small) = &p.nested_in_system_of {
+                    // the dispatcher under test is driven by a plain system of another dispatcher
+                    let sd = match d.try_into_sendable() {
+                        Ok(sd) => sd,
+                        Err(_) => return (0, 0),
+                    };
+                    let mut ob = shred::DispatcherBuilder::new();
+                    ob.add_pool(small.clone());
+                    ob.add(DrivesAnother { inner: sd, world: Arc::new(world), par_only }, "drives another dispatcher", &[]);
+                    let mut outer = ob.build();
+                    let outer_world = full_world();
+                    run_reps(&mut || outer.dispatch(&outer_world), &ctx, &mut completed, &mut gave_up);
+                    return (completed, gave_up);
+                }
                 if let Some(f) = &foreign {
                     // the caller is itself a worker of some *other*, narrow pool: the dispatcher's
                     // own pool still has its idle threads (sendable form: these plans have no
@@ -331,7 +424,16 @@ fn case(rng: &mut Rng, rep: &mut Report, case_no: u64, reps: usize) {
         rep.metric("dispatch_called_from_a_foreign_pool_worker", 1);
     }
     rep.metric("warmup_dispatches", warmup as i64);
-    let sc = Scenario { plan: plan.clone(), ev, reps, pts: pts.clone(), ctxt, pool: use_pool.cloned(), warmup, back_to_back, par_only, foreign: foreign.clone(), pool_last };
+    let plain = ctxt == Ctxt::UserPool && foreign.is_none() && !plan.items.iter().any(|i| matches!(i, Item::Tl(_)));
+    let nested_in_system_of: Option<Pool> = if plain && rng.chance(1, 4) { Some(make_pool(rng.range(1, 2))) } else { None };
+    let busy_neighbour = if matches!(ctxt, Ctxt::UserPool | Ctxt::Async | Ctxt::BatchInner) && nested_in_system_of.is_none() && rng.chance(1, 5) { pool_size.clamp(2, 16) } else { 0 };
+    if nested_in_system_of.is_some() {
+        rep.metric("dispatched_from_inside_a_system_of_another_dispatcher", 1);
+    }
+    if busy_neighbour > 0 {
+        rep.metric("busy_neighbour_dispatchers", 1);
+    }
+    let sc = Scenario { plan: plan.clone(), ev, reps, pts: pts.clone(), ctxt, pool: use_pool.cloned(), warmup, back_to_back, par_only, foreign: foreign.clone(), pool_last, nested_in_system_of, busy_neighbour };
     let first = run_scenario_bounded(&sc);
     if first.is_none() {
         // The dispatch never came back although every wait inside it is bounded (4 s): the
